@@ -131,12 +131,75 @@ mod b64 {
     }
 }
 
+// ---------------------------------------------------------------- byte ranges (C03)
+mod rng {
+    use super::*;
+    use crate::range::Range;
+
+    // executable forms of the clauses of contracts/range.vc for one range-spec
+    pub fn check_spec(len: u64, spec: &str) -> Option<(String, String)> {
+        let s = spec.to_string();
+        let r = panic::catch_unwind(move || Range::parse_range_in_content_range(len, &s));
+        let parts: Vec<&str> = spec.split('-').collect();
+        let a = parts[0].trim();
+        let b = if parts.len() > 1 { parts[1].trim() } else { "" };
+        let na = a.parse::<u64>().ok();
+        let nb = b.parse::<u64>().ok();
+        match r {
+            Err(_) => Some(("panic".into(), "panicked".into())),
+            Ok(Ok(r)) => {
+                if !(r.start <= r.end && r.end <= len) { return Some(("range_ok".into(), format!("Ok({}-{}) violates start<=end<=len", r.start, r.end))); }
+                if !a.is_empty() && Some(r.start) != na { return Some(("range_ok".into(), format!("Ok start {} for first-byte-pos {}", r.start, a))); }
+                if !a.is_empty() && !b.is_empty() && Some(r.end) != nb { return Some(("range_ok".into(), format!("Ok end {} for last-byte-pos {}", r.end, b))); }
+                if a.is_empty() && !b.is_empty() { let n = nb.unwrap_or(0); let want = if n <= len { len - n } else { 0 }; if r.start != want { return Some(("range_ok".into(), format!("suffix {}: start {} expected {}", n, r.start, want))); } }
+                if r.end >= len { return Some(("end<len".into(), format!("Ok({}-{}) names offset {} which is not inside a file of {} bytes", r.start, r.end, r.end, len))); }
+                None
+            }
+            Ok(Err(e)) => {
+                if *e.status_code_reason_phrase.status_code != 416 { return Some(("is_416".into(), format!("error status {}", e.status_code_reason_phrase.status_code))); }
+                // in-file ranges must be accepted
+                let inside = match (na, nb, a.is_empty(), b.is_empty()) {
+                    (Some(x), Some(y), false, false) => x <= y && y < len,
+                    (Some(x), _, false, true) => x < len,
+                    (_, Some(y), true, false) => 0 < y && y <= len,
+                    _ => false,
+                };
+                if inside { Some(("accept".into(), format!("Err({}) for a range inside the file", e.message))) } else { None }
+            }
+        }
+    }
+
+    pub fn search(seed: u64) -> bool {
+        let mut rng = Rng(seed | 1);
+        let lens = [1380u64, 5, 0, 1, 2, 8191, 8192, 8193, u64::MAX - 1, u64::MAX];
+        for &len in lens.iter() {
+            let mut vals: Vec<String> = vec!["".into(), "0".into(), "1".into(), "x".into(), " 3 ".into(), "+2".into(), "-".into(), "18446744073709551615".into(), "18446744073709551616".into()];
+            for d in [len.wrapping_sub(2), len.wrapping_sub(1), len, len.wrapping_add(1)] { vals.push(d.to_string()); }
+            for _ in 0..4 { vals.push(rng.below(len.max(1)).to_string()); }
+            for a in &vals { for b in &vals {
+                let spec = format!("{}-{}", a, b);
+                if let Some((clause, o)) = check_spec(len, &spec) {
+                    report("range", &clause, "Range::parse_range_in_content_range", &format!("{}|{}", len, spec), &o);
+                    return true;
+                }
+            } }
+        }
+        false
+    }
+    pub fn replay(_case: &str, input: &str) -> bool {
+        let (l, spec) = input.split_once('|').unwrap();
+        if let Some((clause, o)) = check_spec(l.parse().unwrap(), spec) { report("range", &clause, "", input, &o); true } else { false }
+    }
+}
+
 pub fn dispatch(args: &[String]) -> i32 {
     panic::set_hook(Box::new(|_| {}));
     if args.len() < 2 { eprintln!("usage: falsify search <routine> <seed> | replay <routine> <case> <input>"); return 2; }
     let found = match (args[0].as_str(), args[1].as_str()) {
         ("search", "base64") => b64::search(args.get(2).and_then(|s| s.parse().ok()).unwrap_or(1)),
         ("replay", "base64") => b64::replay(&args[2], &args[3]),
+        ("search", "range") => rng::search(args.get(2).and_then(|s| s.parse().ok()).unwrap_or(1)),
+        ("replay", "range") => rng::replay(&args[2], &args[3]),
         _ => { eprintln!("unknown routine"); return 2; }
     };
     if found { 1 } else { 0 }
